@@ -2978,6 +2978,17 @@ def _res_map(pe, st, args, t):
     return ("adt", RESULT, 0, "Ok", (pe.invoke_closure(st, args[1], [r[4][0]]),))
 
 
+@pmodel("std::result::Result::<T, E>::unwrap", "std::result::Result::<T, E>::expect", "std::result::Result::<T, E>::unwrap_err",
+        "std::result::Result::<T, E>::expect_err")
+def _res_unwrap(pe, st, args, t):
+    nm = (t.get("callee") or "").rsplit("::", 1)[1]
+    r = _known_adt(args[0], RESULT, nm)
+    want = "Err" if nm.endswith("_err") else "Ok"
+    if r[3] != want:
+        raise _Abort("diverge", "%s() on %s at %s:%s" % (nm, r[3], t.get("file"), t.get("line")))
+    return r[4][0]
+
+
 @pmodel("std::result::Result::<T, E>::unwrap_or")
 def _res_unwrap_or(pe, st, args, t):
     r = _known_adt(args[0], RESULT, "unwrap_or")
